@@ -179,3 +179,21 @@ Theorem C17_generate_permuted : forall s d,
   /\ in_item_order (set_dims s None) = true.
 Proof. exact generate_permuted. Qed.
 Print Assumptions C17_generate_permuted.
+
+(* "exactly once": with duplicate-free value lists no two documented base combinations are equal as finite maps *)
+Theorem C17_spec_base_distinct : forall s,
+  wf_sweep s = true -> Forall (fun kv => NoDup (snd kv)) (items s) -> nodup_ceq (spec_base s).
+Proof. exact spec_base_distinct. Qed.
+Print Assumptions C17_spec_base_distinct.
+
+(* dims = the item keys as plain strings in another order (the one case where the code does not follow the order
+   of dims): list() still consists of exactly the documented combinations, as finite maps, for callables that
+   depend on the finite map only *)
+Theorem C17_generate_permuted_same_set : forall s d L,
+  wf_sweep s = true -> dims s = Some d -> dims_is_keyset d (dkeys (items s)) = true ->
+  ext_sweep s -> spec_list s = Ok L ->
+  exists L', generate s = Ok L'
+    /\ (forall v', In v' L' -> exists v, In v L /\ ceq v' v)
+    /\ (forall v, In v L -> exists v', In v' L' /\ ceq v v').
+Proof. exact generate_permuted_same_set. Qed.
+Print Assumptions C17_generate_permuted_same_set.
